@@ -71,6 +71,20 @@ def build_pool(scratch):
     add("I0", lambda: pm.create_basic_pk_model("iv", dataset_path=csv))
     add("I1", lambda: pm.add_peripheral_compartment(pool["I0"]))
     add("I2", lambda: pm.set_additive_error_model(pool["I0"]))
+    # one population parameter shared by an individual parameter with eta and one without (either order)
+    def share(model, target, expr, drop):
+        from pharmpy.model import Parameters
+
+        st = model.statements.reassign(Expr.symbol(target), expr)
+        pars = Parameters(tuple(p for p in model.parameters if p.name != drop))
+        return model.replace(statements=st, parameters=pars).update_source()
+
+    from pharmpy.basic import Expr
+
+    add("X1", lambda: share(pool["P1"], "VP1", Expr.symbol("POP_VC") * Expr.integer(2), "POP_VP1"))
+    add("X3", lambda: share(pool["P1"], "QP1", Expr.symbol("POP_VC") * Expr.integer(3), "POP_QP1"))
+    add("X2", lambda: share(pm.remove_iiv(pool["P3"], "CL"), "QP1",
+                            Expr.symbol("POP_CL") * Expr.symbol("ETA_QP1").exp(), "POP_QP1"))
     POOL = sorted(pool.items())
     return POOL
 
